@@ -39,17 +39,25 @@ SHOTS = {
 RANGES = (150.0, 300.0, 412.5)
 TSTEPS = (0.0, 0.01, 0.1, 2e-5)     # the last one is shorter than one integration step (about 9e-5 s at the muzzle)
 NBLOCKS = 4
+FAR = 3.0e6          # ft: beyond the reach of anything
 
 
 def requests(name=None):
     out = []
     spec = SHOTS.get(name, {})
+    # a range far beyond reach comes FIRST (round 10): the call ends in a range error whose rows (all but the terminal one) are rows "reported at
+    # a given distance" like any others - and every later request of the cell runs on a calculator that has just been through that failure
+    far_step = [x for x in spec.get('_steps', ('R', 37.5)) if x != 'R'][0]
+    if far_step >= 1.0:
+        out += [(FAR, far_step, 0.0, False), (FAR, far_step, 0.0, True)]
     for R in spec.get('_ranges', RANGES):
         for st in [R if x == 'R' else x for x in spec.get('_steps', ('R', 10.0, 37.5, 75.0, 150.0, 0.3))]:
             for ts in spec.get('_tsteps', TSTEPS):
                 for ex in (False, True):
                     out.append((R, st, ts, ex))
-    return out
+    # no request twice (step 'R' may coincide with an explicit step): a second computation of the same request would overwrite the first answer,
+    # and it is the FIRST computation after the failing one that matters (round 10)
+    return list(dict.fromkeys(out))
 
 
 def cols(r):
@@ -99,7 +107,12 @@ def pairs(cell):
     flags = {}
     for q in need:
         R, st, ts, ex = q
-        rows = calc.fire(shot, U.Foot(R), U.Foot(st), ex, ts).trajectory
+        try:
+            rows = calc.fire(shot, U.Foot(R), U.Foot(st), ex, ts).trajectory
+        except pb.RangeError as e:
+            if R != FAR:
+                raise
+            rows = e.incomplete_trajectory[:-1]       # the terminal row is where the limit was reached, not a requested distance
         res[q] = [cols(r) for r in rows]
         flags[q] = [int(r.flag) for r in rows]
     out = []
